@@ -175,7 +175,8 @@ pub fn c16_worker(ctx: &mut Ctx) {
         }
         let mut rng = ctx.rng("history", i);
         ctx.evaluations += 1;
-        if let Err(m) = crate::pimon::check_two_call_history(&mut rng, &mut st) {
+        let r = if i % 2 == 0 { crate::pimon::check_two_call_history(&mut rng, &mut st) } else { crate::pimon::check_lifetime_history(&mut rng, &mut st) };
+        if let Err(m) = r {
             ctx.violation("pair:history", &m, json!({"kind": "pair-history", "property": "C16", "seed": ctx.seed, "index": i}));
         }
     }
